@@ -119,6 +119,12 @@ fn is_log_name(n: &str) -> bool {
 
 /// Database files currently mapped into the process, and the one containing `addr` (if any).
 fn mapped_files(addr: usize) -> (std::collections::BTreeSet<String>, Option<String>) {
+	let (all, hit) = mapped_files_off(addr);
+	(all, hit.map(|h| h.0))
+}
+
+/// Also the file offset `addr` corresponds to.
+fn mapped_files_off(addr: usize) -> (std::collections::BTreeSet<String>, Option<(String, u64)>) {
 	let mut all = std::collections::BTreeSet::new();
 	let mut hit = None;
 	let maps = match std::fs::read("/proc/self/maps") {
@@ -140,7 +146,9 @@ fn mapped_files(addr: usize) -> (std::collections::BTreeSet<String>, Option<Stri
 		if dash < sp {
 			if let (Some(lo), Some(hi)) = (parse(&l[..dash]), parse(&l[dash + 1..sp])) {
 				if addr >= lo && addr < hi {
-					hit = Some(name.clone());
+					// fields: range perms offset dev inode path
+					let off = l.split(|b| *b == b' ').filter(|x| !x.is_empty()).nth(2).and_then(|x| u64::from_str_radix(std::str::from_utf8(x).unwrap_or("x"), 16).ok()).unwrap_or(0);
+					hit = Some((name.clone(), off + (addr - lo) as u64));
 				}
 			}
 		}
@@ -153,9 +161,14 @@ fn trace_on() -> bool {
 	TRACE.load(Ordering::Relaxed)
 }
 
-fn trace_msync(addr: usize) {
-	let (all, hit) = mapped_files(addr);
-	if let Some(name) = hit {
+fn trace_msync(addr: usize, len: usize) {
+	let (all, hit) = mapped_files_off(addr);
+	if let Some((name, off)) = &hit {
+		if crate::shadow::active() {
+			crate::shadow::synced_range(name, *off, len as u64);
+		}
+	}
+	if let Some((name, _)) = hit {
 		CYCLE.with(|c| {
 			let mut c = c.borrow_mut();
 			if c.1.is_none() {
@@ -310,6 +323,16 @@ fn decide(class: usize) -> bool {
 	}
 }
 
+/// Run harness code whose own file traffic must not be traced (or failed).
+pub fn quiet<T>(f: impl FnOnce() -> T) -> T {
+	IN_HOOK.with(|h| {
+		let was = h.replace(true);
+		let r = f();
+		h.set(was);
+		r
+	})
+}
+
 fn gate<T>(f: impl FnOnce() -> T, default: T) -> T {
 	if !ENABLED.load(Ordering::Relaxed) {
 		return default
@@ -340,6 +363,9 @@ pub unsafe extern "C" fn fdatasync(fd: c_int) -> c_int {
 		gate(
 			|| {
 				if let Some(n) = fd_name(fd) {
+					if crate::shadow::active() {
+						crate::shadow::synced_file(&n);
+					}
 					if is_log_name(&n) {
 						LOG_UNSYNCED.lock().unwrap().insert(n, 0);
 					}
@@ -362,6 +388,9 @@ pub unsafe extern "C" fn fsync(fd: c_int) -> c_int {
 		gate(
 			|| {
 				if let Some(n) = fd_name(fd) {
+					if crate::shadow::active() {
+						crate::shadow::synced_file(&n);
+					}
 					if is_log_name(&n) {
 						LOG_UNSYNCED.lock().unwrap().insert(n, 0);
 					}
@@ -412,7 +441,7 @@ pub unsafe extern "C" fn msync(addr: *mut c_void, len: usize, flags: c_int) -> c
 	}
 	let r = libc::syscall(libc::SYS_msync, addr, len, flags) as c_int;
 	if r == 0 && trace_on() {
-		gate(|| trace_msync(addr as usize), ());
+		gate(|| trace_msync(addr as usize, len), ());
 	}
 	r
 }
@@ -423,6 +452,7 @@ pub unsafe extern "C" fn ftruncate64(fd: c_int, len: i64) -> c_int {
 		set_errno(libc::EIO);
 		return -1
 	}
+	let mut truncated_log: Option<String> = None;
 	if trace_on() {
 		gate(
 			|| {
@@ -430,6 +460,7 @@ pub unsafe extern "C" fn ftruncate64(fd: c_int, len: i64) -> c_int {
 					if is_log_name(&n) {
 						if len == 0 {
 							trace_log_truncate(&n);
+							truncated_log = Some(n);
 						}
 					} else if n.starts_with("table_") {
 						let us = GROW_DELAY_US.load(Ordering::Relaxed);
@@ -443,7 +474,15 @@ pub unsafe extern "C" fn ftruncate64(fd: c_int, len: i64) -> c_int {
 			(),
 		);
 	}
-	libc::syscall(libc::SYS_ftruncate, fd, len) as c_int
+	let r = libc::syscall(libc::SYS_ftruncate, fd, len) as c_int;
+	if r == 0 {
+		if let Some(n) = truncated_log {
+			if crate::shadow::active() {
+				gate(|| crate::shadow::truncated_log(&n), ());
+			}
+		}
+	}
+	r
 }
 
 #[no_mangle]
@@ -457,7 +496,19 @@ pub unsafe extern "C" fn unlink(path: *const c_char) -> c_int {
 		set_errno(libc::EIO);
 		return -1
 	}
-	libc::syscall(libc::SYS_unlink, path) as c_int
+	let r = libc::syscall(libc::SYS_unlink, path) as c_int;
+	if r == 0 && trace_on() && crate::shadow::active() {
+		// (a nested call made by the shadow code itself is stopped by the gate)
+		gate(
+			|| {
+				if let Some(n) = name_of(CStr::from_ptr(path).to_bytes()) {
+					crate::shadow::unlinked(&n);
+				}
+			},
+			(),
+		);
+	}
+	r
 }
 
 #[no_mangle]
